@@ -46,6 +46,11 @@ type PropertyDef struct {
 	NeedsClauses map[string][]string // named clauses that must have produced obligations (vacuity)
 	OnlySafe     bool
 	Sequential   bool
+	// NoContentIDExt drops the axiom "equal contents of equal length have the
+	// same content id" (ids of strings still determine length and bytes, and
+	// conversions carry ids over): only fewer things are provable; the
+	// quadratic instantiation of that axiom made the cache's list proofs slow.
+	NoContentIDExt bool
 	LevelText    string
 	LevelNote    string
 	Technique    string
@@ -138,6 +143,7 @@ func cmdCheck(args []string) int {
 	eng.requireVariants = prop.RequireVars
 	eng.onlySafe = prop.OnlySafe
 	eng.sequential = prop.Sequential
+	eng.noContentIDExt = prop.NoContentIDExt
 	if err := eng.load(prop.Patterns...); err != nil {
 		// a tree that does not build is a tool error, not a violation
 		fmt.Fprintln(os.Stderr, "TOOL-ERROR:", err)
